@@ -1,82 +1,352 @@
 (* Property C05 -- theorems only.  Each is closed by `exact <lemma>` and followed by Print Assumptions.
-   ArrayShift.v / ArrayModel.v are hand-written executable models of ArrayUtility.h / Array.h (tied to the real
-   code by running the extracted OCaml against momo on the same scripts, every run); Gen_Grow.v is regenerated
-   from Array.h by cxx2coq on every run.
-   In all statements: V = element type, self_move v = what `x = std::move(x)` leaves in x, after_move v = what a
-   move leaves in its source (None = moved-from); `= Ok ...` means no failed MOMO_CHECK/MOMO_ASSERT, no read of a
-   moved-from or unconstructed slot, no construction over a live object;  arr_of l r = an array whose elements
-   are exactly l (all Live) followed by r unconstructed slots. *)
+   ArrayShift.v / ArrayModel.v are hand-written executable models of ArrayUtility.h / Array.h / (thin) SegmentedArray.h, tied to the
+   real code by running the extracted OCaml against momo on the same scripts on every run; Gen_Grow.v is regenerated from Array.h by
+   cxx2coq on every run.
+   V = element type; self_move v = what `x = std::move(x)` leaves in x; after_move v = what a move leaves in its source (None =
+   moved-from).  Array contents are lists of `option V` (None = a moved-from element); arr_ofo l r = an array holding exactly the
+   objects l followed by r unconstructed slots (arr_of l r = all elements live).  `= Ok ...` means: no failed MOMO_CHECK/MOMO_ASSERT,
+   no access to unconstructed storage, no construction over a live object, no stale reference after growth. *)
 From Coq Require Import List Arith ZArith Bool.
 From MomoCommon Require GenPrelude.
-From C05 Require Import ArrayShift.
-From C05 Require ShiftProofs FilterProofs GrowProofs Gen_Grow ArrayModel ArrayProofs.
+From C05 Require Import ArrayShift ArrayModel ShiftProofs FilterProofs ArrayProofs SegProofs.
+From C05 Require GrowProofs Gen_Grow.
 Import ListNotations.
 
-(* ArrayShifter::InsertNogrow(array, index, count, const Item& item): for EVERY length, index, count (including 0),
-   free capacity r >= count, element type behaviour (self_move, after_move), and item that is a temporary or an
-   element in front of the insertion point (all that Array::Insert ever passes): the result is exactly the list
-   insertion, every slot below the new count is Live, nothing was self-move-assigned or read after being moved. *)
-Theorem C05_insert_refines :
-  forall (V : Type) (self_move after_move : V -> option V) (l : list V) (r index count : nat) (x : arg V) (d : V),
-    index <= length l -> count <= r -> ShiftProofs.arg_ok V index x ->
-    insert_nogrow_copies V self_move after_move true (arr_of l r) index count x =
-      Ok (arr_of (firstn index l ++ repeat (ShiftProofs.arg_val V l d x) count ++ skipn index l) (r - count)).
-Proof. exact ShiftProofs.insert_copies_refines. Qed.
-Print Assumptions C05_insert_refines.
+(* ArrayShifter::InsertNogrow(array, index, count, const Item& item): for EVERY array contents l (elements may even be
+   moved-from: option V), index, count (including 0), free capacity r >= count, element behaviour (self_move, after_move) and item that
+   is a temporary or an element in front of the insertion point (all that Array::Insert ever passes): the result is exactly the list
+   insertion; no failed check, nothing self-move-assigned, no use of a moved-from or shifted alias. *)
+Theorem C05_insert_copies_refines :
+  forall (V : Type) (self_move after_move : V -> option V) (l : list (option V)) (r index count : nat)
+           (x : arg V),
+         index <= length l ->
+         count <= r ->
+         arg_ok V index x ->
+         insert_nogrow_copies V self_move after_move true (arr_ofo l r) index count x =
+         Ok (arr_ofo (firstn index l ++ repeat (arg_val V l x) count ++ skipn index l) (r - count)).
+Proof. exact insert_copies_refines. Qed.
+Print Assumptions C05_insert_copies_refines.
 
 (* the forward-iterator overload InsertNogrow(array, index, begin, count), same quantification *)
 Theorem C05_insert_range_refines :
-  forall (V : Type) (self_move after_move : V -> option V) (l : list V) (r index : nat) (xs : list (arg V)) (d : V),
-    index <= length l -> length xs <= r -> Forall (ShiftProofs.arg_ok V index) xs ->
-    insert_nogrow_range V self_move after_move true (arr_of l r) index xs =
-      Ok (arr_of (firstn index l ++ map (ShiftProofs.arg_val V l d) xs ++ skipn index l) (r - length xs)).
-Proof. exact ShiftProofs.insert_range_refines. Qed.
+  forall (V : Type) (self_move after_move : V -> option V) (l : list (option V)) (r index : nat)
+           (xs : list (arg V)),
+         index <= length l ->
+         length xs <= r ->
+         Forall (arg_ok V index) xs ->
+         insert_nogrow_range V self_move after_move true (arr_ofo l r) index xs =
+         Ok (arr_ofo (firstn index l ++ map (arg_val V l) xs ++ skipn index l) (r - length xs)).
+Proof. exact insert_range_refines. Qed.
 Print Assumptions C05_insert_range_refines.
+
+(* InsertNogrow(array, index, Item&& item) where item is a temporary OR an element a[p] in front of the insertion point: the inserted
+   object is the OLD a[p], a[p] itself is left as after_move says (moved_out), all other elements as in the list insertion *)
+Theorem C05_insert_rvalue_refines :
+  forall (V : Type) (self_move after_move : V -> option V) (l : list (option V)) (r index : nat) (x : arg V),
+         index <= length l ->
+         1 <= r ->
+         arg_ok V index x ->
+         insert_nogrow_rvalue V self_move after_move true (arr_ofo l r) index x =
+         Ok
+           (arr_ofo
+              (firstn index (moved_out V after_move l x) ++ [arg_val V l x] ++ skipn index (moved_out V after_move l x))
+              (r - 1)).
+Proof. exact insert_rvalue_refines. Qed.
+Print Assumptions C05_insert_rvalue_refines.
 
 (* ArrayShifter::Remove(array, index, count): exactly the list erase, for all lengths/indexes/counts incl. 0 *)
 Theorem C05_remove_refines :
-  forall (V : Type) (self_move after_move : V -> option V) (l : list V) (r index count : nat),
-    index + count <= length l ->
-    remove_range V self_move after_move true (arr_of l r) index count =
-      Ok (arr_of (firstn index l ++ skipn (index + count) l) (r + count)).
-Proof. exact ShiftProofs.remove_refines. Qed.
+  forall (V : Type) (self_move after_move : V -> option V) (l : list (option V)) (r index count : nat),
+         index + count <= length l ->
+         remove_range V self_move after_move true (arr_ofo l r) index count =
+         Ok (arr_ofo (firstn index l ++ skipn (index + count) l) (r + count)).
+Proof. exact remove_refines. Qed.
 Print Assumptions C05_remove_refines.
 
-(* ArrayShifter::Remove(array, itemFilter) = List.filter of the complement, for every list, predicate and element
-   behaviour; the returned count is the number of removed items (the compaction never self-move-assigns: the write
-   position stays strictly behind the read position) *)
+(* ArrayShifter::Remove(array, itemFilter) = List.filter of the complement (keep), returned count = number removed *)
 Theorem C05_remove_filter_refines :
-  forall (V : Type) (self_move after_move : V -> option V) (p : V -> bool) (l : list V) (r : nat),
-    remove_filter V self_move after_move p (arr_of l r) =
-      Ok (arr_of (filter (FilterProofs.keep V p) l) (r + (length l - length (filter (FilterProofs.keep V p) l))),
-          length l - length (filter (FilterProofs.keep V p) l)).
-Proof. exact FilterProofs.remove_filter_refines. Qed.
+  forall (V : Type) (self_move after_move : V -> option V) (p : V -> bool) (l : list (option V)) (r : nat),
+         remove_filter V self_move after_move p (arr_ofo l r) =
+         Ok
+           (arr_ofo (filter (keep V p) l) (r + (length l - length (filter (keep V p) l))),
+            length l - length (filter (keep V p) l)).
+Proof. exact remove_filter_refines. Qed.
 Print Assumptions C05_remove_filter_refines.
 
-(* InsertNogrow(array, index, Item&&) with a temporary (the InsertCrt / ArrayItemHandler path) *)
-Theorem C05_insert_rvalue_temp_refines :
-  forall (V : Type) (self_move after_move : V -> option V) (l : list V) (r index : nat) (v : V),
-    index <= length l -> 1 <= r ->
-    insert_nogrow_rvalue V self_move after_move true (arr_of l r) index (ArgVal v) =
-      Ok (arr_of (firstn index l ++ [v] ++ skipn index l) (r - 1)).
-Proof. exact FilterProofs.insert_rvalue_temp_refines. Qed.
-Print Assumptions C05_insert_rvalue_temp_refines.
-
-(* empty ranges change nothing at all -- for ANY array state (even one containing moved-from elements) *)
+(* empty ranges change nothing at all -- for ANY array state and any value source *)
 Theorem C05_insert_count0_is_identity :
   forall (V : Type) (self_move after_move : V -> option V) (src : source V) (s : arr V) (index : nat),
-    index <= cnt s -> cnt s <= cap s -> insert_nogrow_gen V self_move after_move true src s index 0 = Ok s.
-Proof. exact ShiftProofs.insert_count0_is_identity. Qed.
+         index <= cnt s -> cnt s <= cap s -> insert_nogrow_gen V self_move after_move true src s index 0 = Ok s.
+Proof. exact insert_count0_is_identity. Qed.
 Print Assumptions C05_insert_count0_is_identity.
 
+(* empty removal changes nothing, for any array state *)
 Theorem C05_remove_count0_is_identity :
   forall (V : Type) (self_move after_move : V -> option V) (s : arr V) (index : nat),
-    index <= cnt s -> remove_range V self_move after_move true s index 0 = Ok s.
-Proof. exact ShiftProofs.remove_count0_is_identity. Qed.
+         index <= cnt s -> remove_range V self_move after_move true s index 0 = Ok s.
+Proof. exact remove_count0_is_identity. Qed.
 Print Assumptions C05_remove_count0_is_identity.
 
-(* non-vacuity + the mutant: the code shape BEFORE fix 62f9657 (same definition, early return removed) violates the
-   statements above on [1;2;3], index 1, count 0 for a self-move-hostile element type *)
+(* an array of live elements l is the special case  map Some l  of the statements above (so for all-live input every result slot is live) *)
+Theorem C05_arr_of_arr_ofo :
+  forall (V : Type) (l : list V) (r : nat), arr_of l r = arr_ofo (map Some l) r.
+Proof. exact arr_of_arr_ofo. Qed.
+Print Assumptions C05_arr_of_arr_ofo.
+
+(* Array::Insert(index, count, item) (Array.h): item may refer to ANY element (or be a temporary), the capacity may or may not suffice:
+   pvIndexOf + the ArrayItemHandler temporary made BEFORE growth give exactly the list insertion; allocates iff free capacity r < count *)
+Theorem C05_array_insert_refines :
+  forall (V : Type) (self_move after_move : V -> option V) (growOnReserve : bool) (l : list (option V))
+           (r al index count : nat) (x : arg V),
+         index <= length l ->
+         arg_in V (length l) x ->
+         fits (length l + count) ->
+         exists r' : nat,
+           array_insert V self_move after_move growOnReserve {| body := arr_ofo l r; allocs := al |} index count x =
+           Ok
+             {|
+               body := arr_ofo (firstn index l ++ repeat (arg_val V l x) count ++ skipn index l) r';
+               allocs := if r <? count then S al else al
+             |} /\ (count <= r -> r' = r - count) /\ length l + r <= length l + count + r'.
+Proof. exact array_insert_refines. Qed.
+Print Assumptions C05_array_insert_refines.
+
+(* Array::AddBack(const Item&) with item aliasing any element, through all pvAddBackGrow code paths *)
+Theorem C05_array_add_back_refines :
+  forall (V : Type) (growOnReserve nothrowReloc : bool) (l : list (option V)) (r al : nat) (x : arg V),
+         arg_in V (length l) x ->
+         fits (length l + 1) ->
+         exists r' : nat,
+           array_add_back V growOnReserve nothrowReloc {| body := arr_ofo l r; allocs := al |} x =
+           Ok {| body := arr_ofo (l ++ [arg_val V l x]) r'; allocs := if r =? 0 then S al else al |} /\
+           (0 < r -> r' = r - 1) /\ length l + r <= length l + 1 + r'.
+Proof. exact array_add_back_refines. Qed.
+Print Assumptions C05_array_add_back_refines.
+
+(* Array::Insert(index, Item&& item) with item = ANY element a[p] (Insert(j, std::move(a[i]))) or a temporary, with or without growth:
+   the inserted object is the OLD a[p]; a[p] ends as after_move says (moved-from); every other element as in the list insertion *)
+Theorem C05_array_insert_rvalue_refines :
+  forall (V : Type) (self_move after_move : V -> option V) (growOnReserve : bool) (l : list (option V))
+           (r al index : nat) (x : arg V),
+         index <= length l ->
+         arg_in V (length l) x ->
+         fits (length l + 1) ->
+         exists r' : nat,
+           array_insert_rvalue V self_move after_move growOnReserve {| body := arr_ofo l r; allocs := al |} index x =
+           Ok
+             {|
+               body :=
+                 arr_ofo
+                   (firstn index (moved_out V after_move l x) ++
+                    [arg_val V l x] ++ skipn index (moved_out V after_move l x)) r';
+               allocs := if r =? 0 then S al else al
+             |} /\ (0 < r -> r' = r - 1) /\ length l + r <= length l + 1 + r'.
+Proof. exact array_insert_rvalue_refines. Qed.
+Print Assumptions C05_array_insert_rvalue_refines.
+
+(* Array::AddBack(Item&& item) with item = any element a[p]: the appended object is the old a[p]; a[p] ends moved-from, except on the
+   one growth path that COPIES the items (neither nothrow-move-constructible nor nothrow-relocatable) where a[p] keeps its value *)
+Theorem C05_array_add_back_rvalue_refines :
+  forall (V : Type) (after_move : V -> option V) (growOnReserve nothrowMove nothrowReloc : bool)
+           (l : list (option V)) (r al : nat) (x : arg V),
+         arg_in V (length l) x ->
+         fits (length l + 1) ->
+         exists r' : nat,
+           array_add_back_rvalue V after_move growOnReserve nothrowMove nothrowReloc
+             {| body := arr_ofo l r; allocs := al |} x =
+           Ok
+             {|
+               body :=
+                 arr_ofo
+                   ((if (0 <? r) || nothrowMove || nothrowReloc then moved_out V after_move l x else l) ++
+                    [arg_val V l x]) r';
+               allocs := if r =? 0 then S al else al
+             |} /\ (0 < r -> r' = r - 1) /\ length l + r <= length l + 1 + r'.
+Proof. exact array_add_back_rvalue_refines. Qed.
+Print Assumptions C05_array_add_back_rvalue_refines.
+
+(* Array::SetCount(m, item), item aliasing any element: shrinking = firstn m, growing (within the capacity or with reallocation: the new
+   items are created from item while the old buffer is intact) = l ++ repeat item; the capacity never decreases; no allocation if m fits *)
+Theorem C05_array_set_count_refines :
+  forall (V : Type) (growOnReserve : bool) (l : list (option V)) (r al m : nat) (x : arg V),
+         arg_in V (length l) x ->
+         fits m ->
+         exists r' al' : nat,
+           array_set_count V growOnReserve {| body := arr_ofo l r; allocs := al |} m x =
+           Ok {| body := arr_ofo (firstn m l ++ repeat (arg_val V l x) (m - length l)) r'; allocs := al' |} /\
+           length l + r <= length (firstn m l ++ repeat (arg_val V l x) (m - length l)) + r' /\
+           (m <= length l + r -> al' = al).
+Proof. exact array_set_count_refines. Qed.
+Print Assumptions C05_array_set_count_refines.
+
+(* Array::Shrink(n): elements unchanged; the capacity never drops below the count nor below the internal capacity ic and never grows;
+   with count <= ic and n <= ic the array ends in the internal buffer (capacity exactly ic, Data::pvReset as fixed in f340ccf) without
+   allocating; otherwise the new capacity is max(n, count, ic) *)
+Theorem C05_array_shrink_refines :
+  forall (V : Type) (ic : nat) (canRealloc : bool) (l : list (option V)) (r al n : nat),
+         ic <= length l + r ->
+         exists r' al' : nat,
+           array_shrink V ic canRealloc {| body := arr_ofo l r; allocs := al |} n =
+           Ok {| body := arr_ofo l r'; allocs := al' |} /\
+           ic <= length l + r' /\
+           length l + r' <= length l + r /\
+           (n <= ic -> length l <= ic -> length l + r' = ic /\ al' = al) /\
+           (length l + r <> ic -> n < length l + r -> length l + r' = Nat.max (Nat.max n (length l)) ic).
+Proof. exact array_shrink_refines. Qed.
+Print Assumptions C05_array_shrink_refines.
+
+(* stdish::vector::assign(count, item) with item aliasing an element of the vector itself *)
+Theorem C05_array_assign_refines :
+  forall (V : Type) (ic : nat) (l : list (option V)) (r al count : nat) (x : arg V),
+         arg_in V (length l) x ->
+         exists r' al' : nat,
+           array_assign V ic {| body := arr_ofo l r; allocs := al |} count x =
+           Ok {| body := arr_ofo (repeat (arg_val V l x) count) r'; allocs := al' |} /\ ic <= count + r'.
+Proof. exact array_assign_refines. Qed.
+Print Assumptions C05_array_assign_refines.
+
+(* stdish::vector::assign(first, last) (range outside the container) *)
+Theorem C05_array_assign_range_refines :
+  forall (V : Type) (ic : nat) (l : list (option V)) (r al : nat) (vs : list V),
+         exists r' al' : nat,
+           array_assign_range V ic {| body := arr_ofo l r; allocs := al |} vs =
+           Ok {| body := arr_ofo (map Some vs) r'; allocs := al' |} /\ ic <= length vs + r'.
+Proof. exact array_assign_range_refines. Qed.
+Print Assumptions C05_array_assign_range_refines.
+
+(* Array::RemoveBack(count) *)
+Theorem C05_array_remove_back_refines :
+  forall (V : Type) (l : list (option V)) (r al count : nat),
+         count <= length l ->
+         array_remove_back V {| body := arr_ofo l r; allocs := al |} count =
+         Ok {| body := arr_ofo (firstn (length l - count) l) (r + count); allocs := al |}.
+Proof. exact array_remove_back_refines. Qed.
+Print Assumptions C05_array_remove_back_refines.
+
+(* Array::Clear(shrink): empty afterwards; shrink = true returns to the internal buffer (capacity ic), otherwise the capacity is kept *)
+Theorem C05_array_clear_refines :
+  forall (V : Type) (ic : nat) (l : list (option V)) (r al : nat) (shrink : bool),
+         exists r' : nat,
+           array_clear V ic {| body := arr_ofo l r; allocs := al |} shrink =
+           Ok {| body := arr_ofo [] r'; allocs := al |} /\
+           (shrink = true -> r' = ic) /\ (shrink = false -> r' = length l + r).
+Proof. exact array_clear_refines. Qed.
+Print Assumptions C05_array_clear_refines.
+
+(* Insert(index, begin, end) over an INPUT iterator range (ArrayShifter::Insert: one InsertCrt per item) refines the list insertion *)
+Theorem C05_array_insert_input_refines :
+  forall (V : Type) (self_move after_move : V -> option V) (growOnReserve : bool) (vs : list V)
+           (l : list (option V)) (r al index : nat),
+         index <= length l ->
+         fits (length l + length vs) ->
+         exists r' al' : nat,
+           array_insert_input V self_move after_move growOnReserve {| body := arr_ofo l r; allocs := al |} index vs =
+           Ok {| body := arr_ofo (firstn index l ++ map Some vs ++ skipn index l) r'; allocs := al' |} /\
+           length l + r <= length l + length vs + r'.
+Proof. exact array_insert_input_refines. Qed.
+Print Assumptions C05_array_insert_input_refines.
+
+(* EVERY history over the full operation alphabet of the model (AddBack, AddBack&&, Insert n copies, Insert&&, Insert forward/input range,
+   Remove, Remove(filter), SetCount, assign(n,item), assign(range), RemoveBack, Clear, Reserve, Shrink, a[i]=v), value arguments aliasing any
+   element, empty ranges anywhere, whose list-level preconditions hold (bounded: also lengths <= B, B+1 < 2^64), runs without any error
+   and ends in exactly the list-level result spec_ops (elements: Some v, or None where an rvalue was moved out); capacity >= ic throughout *)
+Theorem C05_history_refines :
+  forall (V : Type) (self_move after_move : V -> option V) (ic : nat)
+           (growOnReserve nothrowMove nothrowReloc canRealloc : bool) (os : list (op V)) (l : list (option V))
+           (r al B : nat),
+         bounded V after_move nothrowMove nothrowReloc l os B ->
+         length l <= B ->
+         fits (B + 1) ->
+         ic <= length l + r ->
+         exists (l' : list (option V)) (r' al' : nat),
+           spec_ops V after_move nothrowMove nothrowReloc l os = Some l' /\
+           run_ops V self_move after_move ic growOnReserve nothrowMove nothrowReloc canRealloc
+             {| body := arr_ofo l r; allocs := al |} os = Ok {| body := arr_ofo l' r'; allocs := al' |} /\
+           ic <= length l' + r'.
+Proof. exact history_refines. Qed.
+Print Assumptions C05_history_refines.
+
+(* after Reserve(n): any history of element-level operations (everything except Shrink / assign / Clear / input-iterator Insert) whose
+   lengths stay <= n performs NO allocation (allocation counter unchanged), keeps the capacity, and refines the list operations *)
+Theorem C05_reserve_then_grow_no_alloc :
+  forall (V : Type) (self_move after_move : V -> option V) (ic : nat)
+           (growOnReserve nothrowMove nothrowReloc canRealloc : bool) (l : list (option V)) 
+           (r al n : nat) (os : list (op V)),
+         fits (n + 1) ->
+         length l <= n ->
+         bounded V after_move nothrowMove nothrowReloc l os n ->
+         all_keep V os = true ->
+         exists (r1 al1 : nat) (l' : list (option V)) (r' : nat),
+           array_reserve V growOnReserve {| body := arr_ofo l r; allocs := al |} n =
+           Ok {| body := arr_ofo l r1; allocs := al1 |} /\
+           n <= length l + r1 /\
+           spec_ops V after_move nothrowMove nothrowReloc l os = Some l' /\
+           run_ops V self_move after_move ic growOnReserve nothrowMove nothrowReloc canRealloc
+             {| body := arr_ofo l r1; allocs := al1 |} os = Ok {| body := arr_ofo l' r'; allocs := al1 |} /\
+           length l' + r' = length l + r1.
+Proof. exact reserve_then_grow_no_alloc. Qed.
+Print Assumptions C05_reserve_then_grow_no_alloc.
+
+(* SegmentedArray::Reserve appends raw cells only: every existing cell stays where it is, count unchanged, capacity not smaller *)
+Theorem C05_seg_reserve_no_relocation :
+  forall (V : Type) (seg_cap : nat -> nat) (b : arr V) (c : nat),
+         firstn (cap b) (cells (seg_reserve V seg_cap b c)) = cells b /\
+         cnt (seg_reserve V seg_cap b c) = cnt b /\ cap b <= cap (seg_reserve V seg_cap b c).
+Proof. exact seg_reserve_no_relocation. Qed.
+Print Assumptions C05_seg_reserve_no_relocation.
+
+(* SegmentedArray::Insert(index, count, item), item aliasing ANY element: temporary + Reserve + the same ArrayShifter::InsertNogrow *)
+Theorem C05_seg_insert_refines :
+  forall (V : Type) (self_move after_move : V -> option V) (seg_cap : nat -> nat),
+         (forall n : nat, n <= seg_cap n) ->
+         forall (l : list (option V)) (r index count : nat) (x : arg V),
+         index <= length l ->
+         arg_in V (length l) x ->
+         exists r' : nat,
+           seg_insert V self_move after_move seg_cap (arr_ofo l r) index count x =
+           Ok (arr_ofo (firstn index l ++ repeat (arg_val V l x) count ++ skipn index l) r').
+Proof. exact seg_insert_refines. Qed.
+Print Assumptions C05_seg_insert_refines.
+
+(* SegmentedArray::Insert(index, Item&&) with item = any element: old a[p] inserted, a[p] left moved-from *)
+Theorem C05_seg_insert_rvalue_refines :
+  forall (V : Type) (self_move after_move : V -> option V) (seg_cap : nat -> nat),
+         (forall n : nat, n <= seg_cap n) ->
+         forall (l : list (option V)) (r index : nat) (x : arg V),
+         index <= length l ->
+         arg_in V (length l) x ->
+         exists r' : nat,
+           seg_insert_rvalue V self_move after_move seg_cap (arr_ofo l r) index x =
+           Ok
+             (arr_ofo
+                (firstn index (moved_out V after_move l x) ++
+                 [arg_val V l x] ++ skipn index (moved_out V after_move l x)) r').
+Proof. exact seg_insert_rvalue_refines. Qed.
+Print Assumptions C05_seg_insert_rvalue_refines.
+
+(* SegmentedArray::Remove is ArrayShifter::Remove *)
+Theorem C05_seg_remove_refines :
+  forall (V : Type) (self_move after_move : V -> option V) (l : list (option V)) (r index count : nat),
+         index + count <= length l ->
+         seg_remove V self_move after_move (arr_ofo l r) index count =
+         Ok (arr_ofo (firstn index l ++ skipn (index + count) l) (r + count)).
+Proof. exact seg_remove_refines. Qed.
+Print Assumptions C05_seg_remove_refines.
+
+(* SegmentedArray::SetCount(m, item) (pvDecCount / pvIncCapacity + construction in place), item aliasing any element *)
+Theorem C05_seg_set_count_refines :
+  forall (V : Type) (seg_cap : nat -> nat),
+         (forall n : nat, n <= seg_cap n) ->
+         forall (l : list (option V)) (r m : nat) (x : arg V),
+         arg_in V (length l) x ->
+         exists r' : nat,
+           seg_set_count V seg_cap (arr_ofo l r) m x =
+           Ok (arr_ofo (firstn m l ++ repeat (arg_val V l x) (m - length l)) r').
+Proof. exact seg_set_count_refines. Qed.
+Print Assumptions C05_seg_set_count_refines.
+
+(* non-vacuity + the mutant: the code shape BEFORE fix 62f9657 (same definition, early return removed) violates the statements above
+   on [1;2;3], index 1, count 0 for a self-move-hostile element type *)
 Theorem C05_insert_count0_refuted :
   exists (l : list nat) (index : nat), index <= length l /\
     insert_nogrow_copies nat (fun _ => None) (fun _ => None) false (arr_of l 2) index 0 (ArgVal 7) <> Ok (arr_of l 2) /\
@@ -91,8 +361,8 @@ Theorem C05_remove_count0_refuted :
 Proof. exact ShiftProofs.remove_count0_refuted. Qed.
 Print Assumptions C05_remove_count0_refuted.
 
-(* ArraySettings::GrowCapacity (GENERATED from Array.h): for every capacity < requested < 2^64, either cause, both
-   modes and both growOnReserve settings the assertion holds and the result is >= the requested capacity *)
+(* ArraySettings::GrowCapacity (GENERATED from Array.h): for every capacity < requested < 2^64, either cause, both modes and both
+   growOnReserve settings the assertion holds and the result is >= the requested capacity *)
 Theorem C05_grow_capacity_ge :
   forall (growOnReserve : bool) (capacity minNew cause : Z) (linear : bool),
     (0 <= capacity < minNew)%Z -> (minNew < 2 ^ 64)%Z ->
@@ -100,65 +370,15 @@ Theorem C05_grow_capacity_ge :
 Proof. exact GrowProofs.grow_capacity_ge. Qed.
 Print Assumptions C05_grow_capacity_ge.
 
-(* Array::Insert(index, count, item) (Array.h): `item` may refer to ANY element of the array (or be a temporary), the
-   capacity may or may not suffice: the aliasing test pvIndexOf + the ArrayItemHandler temporary made BEFORE growth
-   make the result exactly the list insertion; it allocates iff the free capacity r is smaller than count. *)
-Theorem C05_array_insert_refines :
-  forall (V : Type) (self_move after_move : V -> option V) (growOnReserve : bool)
-         (l : list V) (r al index count : nat) (x : arg V) (d : V),
-    index <= length l -> ArrayProofs.arg_in V (length l) x -> ArrayProofs.fits (length l + count) ->
-    exists r', ArrayModel.array_insert V self_move after_move growOnReserve (ArrayModel.mkArray V (arr_of l r) al) index count x =
-        Ok (ArrayModel.mkArray V (arr_of (firstn index l ++ repeat (ShiftProofs.arg_val V l d x) count ++ skipn index l) r')
-                    (if r <? count then S al else al)) /\
-      (count <= r -> r' = r - count) /\ length l + r <= length l + count + r'.
-Proof. exact ArrayProofs.array_insert_refines. Qed.
-Print Assumptions C05_array_insert_refines.
-
-(* Array::AddBack(const Item&) with item aliasing any element, through all pvAddBackGrow code paths *)
-Theorem C05_array_add_back_refines :
-  forall (V : Type) (growOnReserve nothrowReloc : bool) (l : list V) (r al : nat) (x : arg V) (d : V),
-    ArrayProofs.arg_in V (length l) x -> ArrayProofs.fits (length l + 1) ->
-    exists r', ArrayModel.array_add_back V growOnReserve nothrowReloc (ArrayModel.mkArray V (arr_of l r) al) x =
-        Ok (ArrayModel.mkArray V (arr_of (l ++ [ShiftProofs.arg_val V l d x]) r') (if r =? 0 then S al else al)) /\
-      (0 < r -> r' = r - 1) /\ length l + r <= length l + 1 + r'.
-Proof. exact ArrayProofs.array_add_back_refines. Qed.
-Print Assumptions C05_array_add_back_refines.
-
-(* every history of AddBack / Insert(n copies) / Insert(range) / Remove / Reserve -- value arguments aliasing any element,
-   empty ranges anywhere -- whose list-level preconditions hold (`bounded`: also all lengths <= B < 2^64) runs without
-   any error in the model and ends in exactly the list-level result; the capacity never decreases; if B is within the
-   initial capacity nothing is allocated *)
-Theorem C05_history_refines :
-  forall (V : Type) (self_move after_move : V -> option V) (ic : nat) (growOnReserve nothrowMove nothrowReloc canRealloc : bool)
-         (os : list (ArrayModel.op V)) (l : list V) (r al : nat) (d : V) (B : nat),
-    ArrayProofs.bounded V l d os B -> ArrayProofs.fits B ->
-    exists l' r' al', ArrayProofs.spec_ops V l d os = Some l' /\
-      ArrayProofs.run_ops V self_move after_move ic growOnReserve nothrowMove nothrowReloc canRealloc
-        (ArrayModel.mkArray V (arr_of l r) al) os = Ok (ArrayModel.mkArray V (arr_of l' r') al') /\
-      length l + r <= length l' + r' /\
-      (B <= length l + r -> al' = al /\ length l' + r' = length l + r).
-Proof. exact ArrayProofs.history_refines. Qed.
-Print Assumptions C05_history_refines.
-
-(* after Reserve(n), growing the size up to n (by any such history) performs no allocation *)
-Theorem C05_reserve_then_grow_no_alloc :
-  forall (V : Type) (self_move after_move : V -> option V) (ic : nat) (growOnReserve nothrowMove nothrowReloc canRealloc : bool)
-         (l : list V) (r al n : nat) (d : V) (os : list (ArrayModel.op V)),
-    ArrayProofs.fits n -> length l <= n -> ArrayProofs.bounded V l d os n ->
-    exists r1 al1 l' r',
-      ArrayModel.array_reserve V growOnReserve (ArrayModel.mkArray V (arr_of l r) al) n = Ok (ArrayModel.mkArray V (arr_of l r1) al1) /\
-      n <= length l + r1 /\
-      ArrayProofs.spec_ops V l d os = Some l' /\
-      ArrayProofs.run_ops V self_move after_move ic growOnReserve nothrowMove nothrowReloc canRealloc
-        (ArrayModel.mkArray V (arr_of l r1) al1) os = Ok (ArrayModel.mkArray V (arr_of l' r') al1) /\
-      length l' + r' = length l + r1.
-Proof. exact ArrayProofs.reserve_then_grow_no_alloc. Qed.
-Print Assumptions C05_reserve_then_grow_no_alloc.
-
+(* non-vacuity of the history theorems: a 16-op history over the full alphabet with aliased lvalue and rvalue arguments, empty
+   ranges, a filter, Shrink, assign and Clear satisfies `bounded`; its first 11 ops are element-level (all_keep) *)
 Theorem C05_history_nonvacuous :
-  ArrayProofs.bounded nat [1;2;3] 0 [ArrayModel.OAddBack nat (ArgRef 0); ArrayModel.OInsert nat 1 2 (ArgRef 3); ArrayModel.ORemove nat 0 0;
-       ArrayModel.OInsert nat 2 0 (ArgRef 1); ArrayModel.OReserve nat 9; ArrayModel.OInsertRange nat 6 [7;8]; ArrayModel.ORemove nat 1 3] 10
-  /\ ArrayProofs.spec_ops nat [1;2;3] 0 [ArrayModel.OAddBack nat (ArgRef 0); ArrayModel.OInsert nat 1 2 (ArgRef 3); ArrayModel.ORemove nat 0 0;
-       ArrayModel.OInsert nat 2 0 (ArgRef 1); ArrayModel.OReserve nat 9; ArrayModel.OInsertRange nat 6 [7;8]; ArrayModel.ORemove nat 1 3] = Some [1;3;1;7;8].
+  let os := [OAddBack nat (ArgRef 0); OInsert nat 1 2 (ArgRef 3); ORemove nat 0 0; OInsert nat 2 0 (ArgRef 1);
+             OReserve nat 9; OInsertRange nat 6 [7;8]; OInsertR nat 0 (ArgRef 2); OSet nat 3 5; OAddBackR nat (ArgVal 9);
+             ORemoveFilter nat (fun v => v =? 1); OSetCount nat 6 (ArgRef 0); OShrink nat 0; ORemoveBack nat 2;
+             OInsertInput nat 1 [4;4]; OAssign nat 3 (ArgRef 1); OClear nat true] in
+  bounded nat (fun _ => None) true true (map Some [1;2;3]) os 12 /\
+  all_keep nat (firstn 11 os) = true /\
+  spec_ops nat (fun _ => None) true true (map Some [1;2;3]) (firstn 14 os) = Some (map Some [5;4;4;2;3;7]).
 Proof. exact ArrayProofs.bounded_example. Qed.
 Print Assumptions C05_history_nonvacuous.
